@@ -38,7 +38,7 @@ func GenC17(t *rapid.T) *C17Case {
 	c := &C17Case{Twice: drawBool(t, "twice"), Route: drawInt(t, 0, numListRoutes-1, "route")}
 	if drawBool(t, "seq") {
 		for i, n := 0, drawInt(t, 1, 5, "nops"); i < n; i++ {
-			c.Ops = append(c.Ops, []string{"sort", "reverse", "sort", "reverse", "replace", "add", "insert", "delete", "settf"}[drawIdx(t, 9, "op")])
+			c.Ops = append(c.Ops, []string{"sort", "reverse", "sort", "reverse", "replace", "add", "insert", "delete", "settf", "foreachpanic"}[drawIdx(t, 10, "op")])
 		}
 	}
 	shape := drawInt(t, 0, 3, "shape") // 0 random, 1 sorted, 2 reverse sorted, 3 duplicate-heavy
@@ -250,6 +250,27 @@ func CheckC17(c *C17Case, st *Stats) error {
 				for i, j := 0, len(model)-1; i < j; i, j = i+1, j-1 {
 					model[i], model[j] = model[j], model[i]
 				}
+			case "foreachpanic":
+				// a view whose callback gives up part-way (the caller recovers): the list is untouched and
+				// must remain sortable and reversible afterwards
+				calls := 0
+				catch(func() {
+					switch oi % 4 {
+					case 0:
+						l.ForEach(func(int, any) { calls++; panic("callback gives up") })
+					case 1:
+						l.ForEachValue(func(any) {
+							calls++
+							if calls == 2 {
+								panic("callback gives up")
+							}
+						})
+					case 2:
+						l.Map(func(int, any) any { calls++; panic("callback gives up") })
+					default:
+						l.Filter(func(any) bool { calls++; panic("callback gives up") })
+					}
+				})
 			case "replace", "add", "insert", "delete", "settf":
 				// a mutation with a value of the list's own kind, derived deterministically from the step
 				if len(model) == 0 {
